@@ -59,6 +59,10 @@ def make(c: dict):
         idx[0] = shape[0] - 1
         Xd[tuple(idx)] = 0
         Xd[(0,) * (len(shape) - 1)] = 0          # an all-zero fibre
+    if c.get("all_zero"):
+        Xd[...] = 0
+    elif np.count_nonzero(Xd) < 2:            # the all-zero tensor is exercised by explicit witness runs only
+        Xd.reshape(-1)[[1, -1]] = [1.0, 2.0]
     X = ttb.tensor(Xd)
     if c["sparse"]:
         X = X.to_sptensor()
@@ -142,6 +146,8 @@ def replay(b: dict) -> dict:
 def tags_of(tr, k):
     ev = tr["ev"][k - 1]
     tags = []
+    if ev.get("ret", {}).get("st", "").startswith("raised:IndexError") and tr["cfg"].get("all_zero") and tr["cfg"]["sparse"]:
+        tags.append("sparse_all_zero_data")
     if ev.get("ret", {}).get("st", "").startswith("raised") and "first iterate is bad" in ev["ret"].get("msg", ""):
         if tr.get("facts", {}).get("dense_zero_slice"):
             tags.append("dense_zero_slice_first_iterate_bad")
@@ -177,11 +183,23 @@ def main(tier: str) -> int:
                         if tier == "quick" and (i % 3) == 1:
                             i += 1
                             continue
+                        # options are drawn independently of each other (fixed pseudo-random stream per run)
+                        import random
+                        rr = random.Random(7919 * sd + i)
                         runs.append({"alg": alg, "shape": shape, "sparse": sparse, "maxiters": maxiters, "maxinner": maxinner,
-                                     "rank": 1 + i % 2, "seed": sd + i % 6, "stoptol": [1e-4, 0.0][i % 2],
-                                     "printitn": [0, 1][i % 2], "precompinds": (i // 2) % 2 == 0, "inexact": (i // 3) % 2 == 0,
-                                     "lbfgs": [1, 3][i % 2], "empty_slice": i % 3 == 0, "zero_row": i % 4 == 0})
+                                     "rank": rr.choice([1, 2, 2, 3]), "seed": sd + rr.randrange(6), "stoptol": rr.choice([1e-4, 1e-4, 1e-2, 0.0]),
+                                     "printitn": rr.choice([0, 1, 2]), "precompinds": rr.choice([True, False]),
+                                     "inexact": rr.choice([True, False]), "lbfgs": rr.choice([1, 3, 5]),
+                                     "empty_slice": rr.random() < 0.35, "zero_row": rr.random() < 0.25})
                         i += 1
+    # witnesses of K-C11-sparse-all-zero-data (dense all-zero data is answered by mu and pdnr)
+    for alg in ("mu", "pdnr", "pqnr"):
+        for sp in (False, True):
+            if alg == "pqnr" and not sp:
+                continue        # dense all-zero data and pqnr: the dense-zero-slice finding
+            runs.append({"alg": alg, "shape": [3, 4], "sparse": sp, "maxiters": 2, "maxinner": 2, "rank": 1, "seed": 1, "stoptol": 1e-4,
+                         "printitn": 0, "precompinds": True, "inexact": True, "lbfgs": 3, "empty_slice": False, "zero_row": False,
+                         "all_zero": True})
     # witness of K-C11-pqnr-stoptol-zero
     runs.append({"alg": "pqnr", "shape": [4, 3, 3], "sparse": True, "maxiters": 2, "maxinner": 10, "rank": 1, "seed": 2,
                  "stoptol": 0.0, "printitn": 0, "precompinds": False, "inexact": True, "lbfgs": 1, "empty_slice": False,
